@@ -147,6 +147,11 @@ func modelLine(cmd string, op *Op, oracle int) string {
 		fmt.Fprintf(&sb, "drop %d", modelSid(op.Sess))
 	case "tick":
 		fmt.Fprintf(&sb, "tick %d", op.Ms)
+	case "rmrealm":
+		if cmd == "try" {
+			return fmt.Sprintf("tryrm %d", op.Realm)
+		}
+		return fmt.Sprintf("rmrealm %d", op.Realm)
 	case "msg":
 		m := op.M
 		fmt.Fprintf(&sb, "msg %d %d ", modelSid(op.Sess), oracle)
